@@ -267,7 +267,8 @@ def readRowsHWith {α : Type} (split : Row → Row) (x : Ext α) (comma : Bool) 
     | none => none
     | some planes => some { names := unames, planes := planes }
 
-/-- `_icap_csv_rows_read(path, col_type=chan, …)`; `none` = an exception (`ValueError` or
+/-- `_icap_csv_rows_read(path, col_type=chan, …)` with `split` the line splitter of its `genfromtxt`
+call; `none` = an exception (`ValueError` or
 `IndexError`).  Header rows past the end of the file read as one empty field; the run and channel
 masks broadcast when one of them has a single field; the scan and name rows must be as long as the
 mask.  No sample row at all gives an image with no samples; a sample row is accepted as soon as it
@@ -287,6 +288,8 @@ def readRowsWith {α : Type} (split : Row → Row) (x : Ext α) (comma : Bool) (
 def readRowsH {α : Type} (x : Ext α) (comma : Bool) (chan : String) (hdr : List Hdr) (body : Table) : Option (Img α) :=
   readRowsHWith gfSplit x comma chan hdr body
 
+/-- `_icap_csv_rows_read(path, col_type=chan, …)` as the code is (`readRowsWith` with the splitter of
+`genfromtxt(..., comments=None)`) -/
 def readRows {α : Type} (x : Ext α) (comma : Bool) (chan : String) (t : Table) : Option (Img α) :=
   readRowsWith gfSplit x comma chan t
 
